@@ -342,7 +342,7 @@ class Run:
     # -------------------------------------------------------------------- state checks
     def check_state(self, ctx, with_introspect=False):
         for fs in self.files.values():
-            if fs.real is None:
+            if fs.real is None or getattr(fs, "unmodelled", False):
                 continue
             real = K.walk_file(fs.real)
             mod = K.walk_file(fs.model)
@@ -384,7 +384,7 @@ class Run:
         self.check_state("end")
         self.profile.at_end(self)
         for fs in self.files.values():
-            if fs.real is not None:
+            if fs.real is not None and not getattr(fs, "unmodelled", False):
                 self.log("final", fs.path, K.digest(K.walk_file(fs.real)))
         for fs in list(self.files.values()):
             self.close_file(fs)
